@@ -231,6 +231,107 @@ def many_leg(params, res):
                 return
 
 
+def overlap_leg(params, res):
+    """two callers on ONE Terminal object at the same time, with different
+    targets (a service task wants PRE-OP while a sync group that contains
+    the terminal starts and wants OP), and two masters (two EtherCAT loops)
+    in one process whose terminals have the same station addresses.  Every
+    call returns only once its terminal has reported a state at or above
+    the call's target; nothing above the highest target is requested; the
+    terminals of the other loop see nothing of it."""
+    import random
+    rng = random.Random(params["seed"] * 11 + 5)
+    for _ in range(params["count"] * 4):
+        two_loops = rng.random() < 0.4
+        nterm = 2 if two_loops else 1
+        ts = []
+        for i in range(nterm):
+            t = bus.SimTerminal(f"T{i}", station=77)
+            t.al_state = rng.choice([1, 1, 1, 2])
+            lat = {(1, 2): rng.randint(0, 4), (2, 4): rng.randint(0, 4),
+                   (4, 8): rng.randint(0, 4)}
+            t.al_latency = (lambda lat: lambda frm, to: lat.get(
+                (frm, to), 0))(lat)
+            ts.append(t)
+        buses = [bus.Bus([t]) for t in ts]
+        calls = []
+        for i in range(2):
+            calls.append(dict(term=i % nterm,
+                              target=rng.choice([2, 4, 8]),
+                              after=rng.randint(0, 8)))
+        if not two_loops:
+            calls.sort(key=lambda c: c["after"])
+        desc = dict(two_loops=two_loops, calls=calls,
+                    start=[t.al_state for t in ts])
+        returned = {}
+
+        async def main(loop):
+            ecs = []
+            for b in buses:
+                ec = EtherCat("vf")
+                await bus.connect(ec, loop, b)
+                ecs.append(ec)
+            terms = []
+            for i in range(nterm):
+                term = Terminal(ecs[i])
+                term.position = 77
+                terms.append(term)
+
+            async def call(k, c):
+                for _ in range(c["after"]):
+                    await asyncio.sleep(0)
+                try:
+                    await asyncio.wait_for(terms[c["term"]].to_operational(
+                        MachineState(c["target"])), 50)
+                    returned[k] = ("ret", len(ts[c["term"]].events))
+                except EtherCatError as ex:
+                    returned[k] = ("raised " + str(ex)[:60],
+                                   len(ts[c["term"]].events))
+                except asyncio.TimeoutError:
+                    returned[k] = ("timeout", len(ts[c["term"]].events))
+            await asyncio.gather(*[call(k, c) for k, c in enumerate(calls)])
+        try:
+            aio.run(main)
+        except aio.WallClock:
+            res.inconc("overlap leg: watchdog")
+            continue
+        except Exception as ex:
+            res.case([desc, "raised"], nontrivial=True)
+            res.violation("unexplained:overlapping-calls-raised",
+                          f"{type(ex).__name__}: {str(ex)[:200]}", case=desc)
+            return
+        res.case([desc], nontrivial=True)
+        res.count("overlapping_call_pairs[" + (
+            "two loops" if two_loops else "one terminal") + "]")
+        why = None
+        for k, c in enumerate(calls):
+            out, n = returned.get(k, ("never returned", 0))
+            evs = ts[c["term"]].events[:n]
+            reads = [e[1] for e in evs if e[0] == "al_status_read"]
+            if out != "ret":
+                why = f"call {k} (target {NAMES[c['target']]}) {out}"
+            elif not reads or reads[-1] & 0xf < c["target"]:
+                why = (f"call {k} returned when the terminal had last "
+                       f"reported {NAMES.get(reads[-1] & 0xf) if reads else None}"
+                       f", target {NAMES[c['target']]}")
+            if why:
+                break
+        if not why:
+            for i, t in enumerate(ts):
+                top = max(c["target"] for c in calls if c["term"] == i)
+                reqs = [e[1] for e in t.events if e[0] == "al_control"]
+                if any(r & 0xf > top for r in reqs):
+                    why = (f"terminal {i}: requests {reqs}, highest target "
+                           f"{NAMES[top]}")
+                if any(e[0] == "al_refused" for e in t.events):
+                    why = f"terminal {i} refused a request"
+        if why:
+            res.violation("unexplained:overlapping-calls", f"{why} [{desc}]",
+                          case=desc, witness=dict(
+                              events=[t.events[:40] for t in ts]))
+            return
+
+
 def slow_leg(params, res):
     target = params["target"]
     ORDER = [1, 2, 4, 8]
@@ -271,6 +372,7 @@ def run_shard(params):
     res = Result()
     if params.get("many"):
         many_leg(params, res)
+        overlap_leg(params, res)
         return res
     if params.get("slow"):
         slow_leg(params, res)
